@@ -150,7 +150,8 @@ def rand_typed(rng):
             irefs.append([t, other, ty] if rng.random() < 0.5 else [other, t, ty])
     if rng.random() < 0.4 and irefs:
         irefs.append(list(rng.choice(irefs)))            # duplicate row
-    ns = {t: 0 for t in tids}
+    # the named reference types are base types; further ones are partly custom types of other namespaces (deriving from each other)
+    ns = {t: (0 if t < 6 else rng.choice([0, 1, 1, 2])) for t in tids}
     for i in inst:
         ns[i] = rng.choice([1, 1, 2])
     return {"types": tids, "type_refs": refs, "inst": inst, "inst_refs": irefs, "ns": ns, "isolated": sorted(isolated)}
@@ -324,6 +325,8 @@ def explore(run):
     if run.full():
         return
     closure_cases(run, [rand_graph(rng) for _ in range(3000 if thorough else 300)])
+    # wide diamonds: many two-step walks between one pair (the squaring step adds up 130 / 256 products for it)
+    closure_cases(run, [[[0, 1]] + [[1, c] for c in range(10, 10 + k)] + [[c, 2] for c in range(10, 10 + k)] + [[2, 3]] for k in ((130, 256) if thorough else (130,))])
     if thorough:
         closure_cases(run, [[[i, i + 1] for i in range(1, n)] for n in (33, 64, 65, 100)])
     if run.full():
@@ -340,7 +343,11 @@ def explore(run):
     typed_cases(run, tg)
     if run.full():
         return
-    circular_cases(run, tg[: (800 if thorough else 60)])
+    # a custom hierarchical reference type deriving from another custom type (both outside the base namespace), used on a cycle
+    wit = {"types": list(range(8)), "type_refs": [[HIER, HST, HST], [HIER, HASPROP, HST], [NONHIER, HMR, HST], [NONHIER, HTD, HST], [HASPROP, 6, HST], [6, 7, HST]],
+           "inst": [100, 101, 102, 103], "inst_refs": [[100, 101, 7], [101, 102, 7], [102, 100, 7], [102, 103, 6], [103, 102, HTD]],
+           "ns": {0: 0, 1: 0, 2: 0, 3: 0, 4: 0, 5: 0, 6: 1, 7: 1, 100: 1, 101: 1, 102: 1, 103: 2}, "isolated": []}
+    circular_cases(run, [wit] + tg[: (800 if thorough else 60)])
 
 
 def search_missing(run, disagreements):
